@@ -62,8 +62,7 @@ class C09(Prop):
             "identify_image(object) vs identify_image(serialised dict) vs the spec tuple; non-trivial = history with >= 1 accepted add")
     assumptions = ["image objects are not mutated after they were filed (add_checksum / attribute assignment are outside the quantifier)",
                    "values compared by == are str/int/bool/None/list/dict of those (no floats: 1 == 1.0 is outside the model)"]
-    partial = {"C09_load_rejects": "stated for documents newer than 1.1 (no src re-filing) whose image table has unique keys (any parsed JSON object); "
-                                   "1.1 documents with colliding pairs are covered by C09_load (what loads is Uniq) and by the harness"}
+    partial = {}
 
     # ------------------------------------------------------------------ cases
     def cases(self, rng, tier, budget):
@@ -303,6 +302,6 @@ PROP = C09()
 
 MANIFEST = dict(
     technique="Lean 4 proof over an executable model of Images.add that RUNS THE STATEMENT LIST READ FROM THE SOURCE (tools/gen_images.py) with the generated identity tuple and version gate: invariant by induction over unbounded histories and over the loops of the reader; refusal-changes-nothing from the order of effects; differential check of every step against the real library + Uniq oracle written independently of identify_image",
-    text="C09_tuple (decide): the code's identity tuple is the documented seven attributes. C09_script (decide on the regenerated statement list): nothing that can raise follows the insertion, the insertion follows the scan. C09_step / C09_reachable / C09_reachable_from: for any header version on which the generated gate (>= 1.1) is on, any history of adds of any length keeps Uniq. C09_refusal: a raising add returns the identical state (any version); C09_refusal_class: it is ValueError; C09_accepts: no spurious refusal. C09_load: every manifest deserialised from a >= 1.1 document is Uniq; C09_load_rejects: a document newer than 1.1 with a colliding pair is rejected. C09_identity: identify(object) = identify(serialised dict) for every image that validates. C09_below_witness: under 0.0 / 1.0 a colliding pair is accepted (F11).",
+    text="C09_tuple (decide): the code's identity tuple is the documented seven attributes. C09_script (decide on the regenerated statement list): nothing that can raise follows the insertion, the insertion follows the scan. C09_step / C09_reachable / C09_reachable_from: for any header version on which the generated gate (>= 1.1) is on, any history of adds of any length keeps Uniq. C09_refusal: a raising add returns the identical state (any version); C09_refusal_class: it is ValueError; C09_accepts: no spurious refusal. C09_load: every manifest deserialised from a >= 1.1 document is Uniq; C09_load_rejects: a document of any enforcing version (1.1 with its src re-filing included; entries under a src key of a <= 1.1 document excepted, they are re-filed or dropped) containing a colliding pair is rejected. C09_identity: identify(object) = identify(serialised dict) for every image that validates. C09_below_witness: under 0.0 / 1.0 a colliding pair is accepted (F11).",
     note="Mutating an Image after it was filed is outside the property's quantifier (histories of add calls / loaded files).",
     ref="7/C09")
